@@ -18,6 +18,13 @@ type ikey int
 func (k ikey) Hash() uint                   { return uint(int(k)%7 + 7) } // few buckets: collisions
 func (k ikey) Equals(o hmap.LinkedKey) bool { ok, is := o.(ikey); return is && ok == k }
 
+// panicKey is a caller-supplied key whose methods fail (as a nil key or a key of a foreign type meeting an unchecked
+// type assertion does): hashing it panics, comparing it panics.
+type panicKey struct{}
+
+func (panicKey) Hash() uint                 { panic("Hash of a broken key") }
+func (panicKey) Equals(hmap.LinkedKey) bool { panic("Equals of a foreign key type") }
+
 // ctype describes one shared collection type.
 type ctype struct {
 	Name string
